@@ -73,7 +73,9 @@ type Sched struct {
 	// decision (prompt consumers that drain their channels); they report progress.
 	Daemons   map[string]func() bool
 	FairTicks bool // time passes only while no goroutine of the server waits to be scheduled
-	TickPct   int  // per cent of scheduling decisions that let simulated time pass instead
+	CrashPct  int  // per mille of scheduling decisions that kill the server process (once per section)
+	Crashed   bool
+	TickPct   int // per cent of scheduling decisions that let simulated time pass instead
 	maxStep   int
 	t0        gotime.Time
 	stepNo    int
@@ -504,10 +506,13 @@ func (s *Sched) Run() {
 		var t *SchedTask
 		var tick gotime.Duration
 		var ann *SchedTask
+		crash := false
 		if e, ok := s.nextScripted(ready, announcable); ok {
 			// replay: the recorded schedule decides (entries that no longer apply -
 			// their task was removed by minimisation - are skipped)
-			t, tick, ann = e.task, e.tick, e.announce
+			t, tick, ann, crash = e.task, e.tick, e.announce, e.crash
+		} else if s.CrashPct > 0 && !s.Crashed && s.stepNo > 3 && s.R.IntN(1000) < s.CrashPct {
+			crash = true
 		} else {
 			if s.TickPct > 0 && !(s.FairTicks && bgReady) && s.R.IntN(100) < s.TickPct {
 				// scheduling decision: let simulated time pass (timers, tickers, timeouts fire)
@@ -524,6 +529,21 @@ func (s *Sched) Run() {
 					t = ready[k]
 				}
 			}
+		}
+		if crash {
+			// the server process dies HERE: every request in flight is lost, whatever was
+			// stored so far survives, nothing more is stored. The tasks go on and unwind
+			// (every further storage call fails, no response reaches a client).
+			s.Crashed = true
+			s.w.gen.dead = true
+			tag := "crash!"
+			if s.w.inPushCheckpointWindow() {
+				tag = "crash!dupwin" // between CreateChangeInfos and UpdateClientInfoAfterPushPull of some request
+			}
+			s.decided(tag)
+			s.w.fault("server_crash_inside_section")
+			s.mu.Unlock()
+			continue
 		}
 		if tick > 0 {
 			s.decided(fmt.Sprintf("tick+%dms", tick.Milliseconds()))
@@ -552,6 +572,7 @@ type scripted struct {
 	task     *SchedTask
 	tick     gotime.Duration
 	announce *SchedTask
+	crash    bool
 }
 
 // decided records one scheduling decision (the schedule of the section is part of
@@ -569,6 +590,12 @@ func (s *Sched) nextScripted(ready, announcable []*SchedTask) (scripted, bool) {
 	for len(s.Script) > 0 {
 		e := s.Script[0]
 		s.Script = s.Script[1:]
+		if strings.HasPrefix(e, "crash!") {
+			if s.Crashed {
+				continue
+			}
+			return scripted{crash: true}, true
+		}
 		if strings.HasPrefix(e, "tick+") {
 			ms, err := strconv.Atoi(strings.TrimSuffix(strings.TrimPrefix(e, "tick+"), "ms"))
 			if err != nil || ms <= 0 {
